@@ -307,8 +307,8 @@ class C14(Prop):
                "rational test in evaluate, also for the two affine variants); otherwise undetermined",
                "float32 images: NumPy evaluates means, products and standard deviations in float32; an r that involves a float32 image is "
                "compared at 2e-5 + 64*2^-23*(E|xy| + E|x|E|y|)/(sx sy), a Manders ratio of a float32 image at 2e-5 relative, and the ICQ is "
-               "undetermined when a non-zero deviation is below 1e-4 of the scale; integer images whose product x*y does not fit the integer "
-               "type (NumPy wraps silently): r and r_yx are recorded (feature dtype:integer-product-wraps), not judged - see notes/EC14.md",
+               "undetermined when a non-zero deviation is below 1e-4 of the scale; integer images are judged like float64 ones, also when a "
+               "product x*y does not fit their integer type (feature dtype:integer-product-exceeds-the-type; fixed in 1c7bcd4)",
                "large shuffles: Python encodes (run lengths, integer lists) and snapshots; the relations are evaluated by the Lean driver in "
                "their quasi-linear forms, proved equal to the reference forms (spec_outside_fast, spec_blocks_fast) and re-checked against "
                "them on every small case; 'equal to the model's output for the recorded permutation' is the certificate specOutside + "
@@ -395,7 +395,7 @@ class C14(Prop):
                 return [q.numerator, q.denominator]
 
             case = {"kind": "coeff", "shape": shape, "x": x, "y": y, "den": den, "offx": offx, "offy": offy,
-                    "spow": rng.choice([0, 0, 0, 1, 7] if ints else [0, 0, 0, -10, 7, 20]), "tx": thr(x, offx), "ty": thr(y, offy),
+                    "spow": rng.choice([0, 0, 1, 7, 10] if ints else [0, 0, 0, -10, 7, 20]), "tx": thr(x, offx), "ty": thr(y, offy),
                     "a_pow": rng.choice([-3, 0, 1, 5]), "b": rng.choice([0, 1, -7, 1000]), "gen": [style]}
             if dtype is not None:
                 case["dtype"] = dtype
@@ -790,8 +790,8 @@ class C14(Prop):
         if not (np.array_equal(xa.astype(np.float64), x) and np.array_equal(ya.astype(np.float64), y)):
             raise core.InternalError("typed / laid out image differs from the exact values")
         f4x, f4y = dts[0] == "f4", dts[1] == "f4"
-        # integer images: `x * y` is formed in the integer type; where a product does not fit, NumPy wraps around silently.
-        # That r is recorded (feature), not judged: see notes/EC14.md (candidate finding)
+        # integer images whose products do not fit the integer type of the pair (a product formed in that type would wrap around
+        # silently: the defect repaired in 1c7bcd4): an ordinary judged class
         rt = np.result_type(xa.dtype, ya.dtype)
         wraps = rt.kind in "iu" and any(not (np.iinfo(rt).min <= int(u) * int(v) <= np.iinfo(rt).max) for u, v in zip(x.ravel(), y.ravel()))
         snap = [v.copy() for v in (xa, ya, x2, y2)]
@@ -856,11 +856,9 @@ class C14(Prop):
             if "raises" in impl or not impl["args_unchanged"]:
                 return False
             ok = core.close(impl["icq"], ref["icq"], rel=0.0, abs_=1e-12)
-            if not wraps:
-                ok = ok and abs(impl["r"] - ref["r"]) <= tol and abs(impl["r_yx"] - ref["r"]) <= tol
-                ok = ok and all(abs(impl[k]) <= 1 + tol for k in ("r", "r_yx"))
+            ok = ok and abs(impl["r"] - ref["r"]) <= tol and abs(impl["r_yx"] - ref["r"]) <= tol
             ok = ok and abs(impl["r_ax"] - ref["r"]) <= tol_ax and abs(impl["r_ay"] - ref["r"]) <= tol_ay
-            ok = ok and all(abs(impl[k]) <= 1 + t for k, t in (("r_ax", tol_ax), ("r_ay", tol_ay)))
+            ok = ok and all(abs(impl[k]) <= 1 + t for k, t in (("r", tol), ("r_yx", tol), ("r_ax", tol_ax), ("r_ay", tol_ay)))
             if sums_ok:
                 ok = ok and core.close(impl["m1"], ref["m1"], rel=REL32 if f4x else REL, abs_=1e-15)
                 ok = ok and core.close(impl["m2"], ref["m2"], rel=REL32 if f4y else REL, abs_=1e-15)
@@ -894,8 +892,7 @@ class C14(Prop):
         if negzero and ((0 in xq and xa.dtype.kind == "f") or (0 in yq and ya.dtype.kind == "f") or tx == 0 or ty == 0):
             feats.add("negative-zero")
         if wraps:
-            feats.add("dtype:integer-product-wraps(r recorded only): r " +
-                      ("as if exact" if "raises" not in impl and abs(impl["r"] - r) <= tol else "DIFFERS"))
+            feats.add("dtype:integer-product-exceeds-the-type(" + rt.name + ")")
         if case["offx"] or case["offy"]:
             feats.add("offset")
         feats.add("r:" + ("+1" if abs(r - 1) < 1e-12 else "-1" if abs(r + 1) < 1e-12 else "0" if cov == 0 else "other"))
